@@ -364,6 +364,92 @@ Section Remote.
   Qed.
 End Remote.
 
+(** * The write list enforced by the controller types *)
+
+(** a list that names somebody is enforced as it is, by both types *)
+Lemma enforced_nonempty t creator W wildcard :
+  W <> [] -> enforced_writers t creator W wildcard = W.
+Proof. destruct W; [intros H; contradiction H; reflexivity | reflexivity]. Qed.
+
+(** the wildcard adds no identity to the list *)
+Lemma enforced_wildcard t creator W : enforced_writers t creator W true = W.
+Proof. destruct W; reflexivity. Qed.
+
+(** the empty list: the creator alone (ipfs), nobody (simple) *)
+Lemma enforced_empty t creator :
+  enforced_writers t creator [] false = match t with ACIpfs => [creator] | ACSimple => [] end.
+Proof. reflexivity. Qed.
+
+(** local route, by configuration: whoever is not in the ENFORCED list is refused *)
+Lemma local_denied_configured :
+  forall bi t creator cW id_key blk l h w o refs e1 l1,
+    ~ In w (enforced_writers t creator cW false) ->
+    append l h w w w w o refs (acc_of bi (enforced_writers t creator cW false) false id_key blk) = (e1, l1) ->
+    e1 = Err EDenied /\ lents l1 = lents l /\ lheads l1 = lheads l /\ lnext l1 = lnext l.
+Proof. intros bi t creator cW. apply local_denied. Qed.
+
+(** ipfs controller, empty list: everybody but the creator is refused *)
+Lemma local_denied_ipfs_default :
+  forall bi creator id_key blk l h w o refs e1 l1,
+    w <> creator ->
+    append l h w w w w o refs (acc_of bi (enforced_writers ACIpfs creator [] false) false id_key blk) = (e1, l1) ->
+    e1 = Err EDenied /\ lents l1 = lents l /\ lheads l1 = lheads l /\ lnext l1 = lnext l.
+Proof.
+  intros bi creator id_key blk l h w o refs e1 l1 Hw. apply local_denied.
+  cbn. intros [H|[]]. apply Hw. symmetry. exact H.
+Qed.
+
+(** simple controller, empty (or absent) list: everybody is refused, the creator included *)
+Lemma local_denied_simple_empty :
+  forall bi creator id_key blk l h w o refs e1 l1,
+    append l h w w w w o refs (acc_of bi (enforced_writers ACSimple creator [] false) false id_key blk) = (e1, l1) ->
+    e1 = Err EDenied /\ lents l1 = lents l /\ lheads l1 = lheads l /\ lnext l1 = lnext l.
+Proof.
+  intros bi creator id_key blk l h w o refs e1 l1. apply local_denied. intros [].
+Qed.
+
+Lemma nil_of_none {A} (P : A -> Prop) (xs : list A) :
+  (forall x, In x xs -> P x) -> (forall x, ~ P x) -> xs = [].
+Proof.
+  intros H HN. destruct xs as [|x xs]; [reflexivity|].
+  exfalso. apply (HN x). apply H. left. reflexivity.
+Qed.
+
+(** simple controller, empty list, remote routes: whatever is delivered, a log that starts
+    empty stays empty (entries, heads, listing) *)
+Lemma simple_empty_stays_empty :
+  forall creator id_key blk U id xs,
+    hash_inj U -> incl xs U ->
+    let l' := merge_fetched true (acc_of true (enforced_writers ACSimple creator [] false) false id_key blk)
+                            (empty_log id) xs in
+    lents l' = [] /\ lheads l' = [] /\ values l' = [].
+Proof.
+  intros creator id_key blk U id xs HU Hxs l'.
+  destruct (merge_only_authorised (enforced_writers ACSimple creator [] false) false id_key blk
+              U (empty_log id) xs HU Hxs (lgood_empty _ _ _ _ U id)) as [_ H].
+  fold l' in H.
+  assert (HN : forall e, ~ authorised (enforced_writers ACSimple creator [] false) false id_key e).
+  { intros e [Hw|[w [[] _]]]. discriminate Hw. }
+  repeat split; apply (nil_of_none (authorised (enforced_writers ACSimple creator [] false) false id_key));
+    try exact HN; intros e He; apply (H e); auto.
+Qed.
+
+(** ipfs controller, empty list, remote routes: every entry that gets in was authored by
+    the key endorsed by the creator *)
+Lemma ipfs_default_only_creator :
+  forall creator id_key blk U l xs,
+    hash_inj U -> incl xs U ->
+    lgood (enforced_writers ACIpfs creator [] false) false id_key blk U l ->
+    let l' := merge_fetched true (acc_of true (enforced_writers ACIpfs creator [] false) false id_key blk) l xs in
+    forall e, In e (lents l') \/ In e (lheads l') \/ In e (values l') ->
+      entry_verify e = true /\ elog e = lid l /\ author e = id_key creator.
+Proof.
+  intros creator id_key blk U l xs HU Hxs Hg l' e He.
+  destruct (merge_only_authorised _ false id_key blk U l xs HU Hxs Hg) as [_ H].
+  destruct (H e He) as (A & B & C). split; [exact A | split; [exact B|]].
+  destruct C as [C|[w [[Hw|[]] C]]]; [discriminate C|]. subst w. symmetry. exact C.
+Qed.
+
 (** * The pinned commit: refutations by witness *)
 
 (** writer identity 1 (key 1) is the only writer; key 9 belongs to identity 9 *)
